@@ -540,6 +540,9 @@ class ExprMixin:
         return None, None, None
 
     def binop(self, op, a, b, st, node=None):
+        if (isinstance(op, ast.Sub) and isinstance(a, SRef) and isinstance(b, SRef) and a.cls.kind == 'set'
+                and a.cls is b.cls):
+            return [self.set_difference(a, b, st)]
         kind, at, bt = self.num_pair(a, b)
         mk = SInt if kind == 'int' else SReal
         if kind:
@@ -674,12 +677,24 @@ class ExprMixin:
                 return self.fresh(st, 'opaque_eq', z3.BoolSort())
         raise Unsupported('equality between %r and %r' % (a, b))
 
+    def user_contains(self, cont, item, st):
+        """`x in obj` for a class whose __contains__ is inlined: it must be a pure single-outcome function"""
+        res = self.call_method(cont, '__contains__', [item], {}, st)
+        if len(res) != 1 or not isinstance(res[0][0], SBool):
+            raise Unsupported('user __contains__ with several outcomes')
+        r, s2 = res[0]
+        if any(s2.heap.get(k) is not v for k, v in st.heap.items()) or len(s2.heap) != len(st.heap):
+            raise Unsupported('user __contains__ with side effects')
+        return r.t
+
     def contains(self, cont, item, st):
         if isinstance(cont, SRef) and (cont.cls.has_dict() or cont.cls.kind == 'set'):
             if cont.cls.pyclass and self.has_method(cont.cls, '__contains__'):
-                raise Unsupported('user __contains__')
+                return self.user_contains(cont, item, st)
             self.on_field_access(st, cont, 'dom', 'read', None)
             return z3.Select(self.hload(st, cont, 'dom'), self.coerce(st, item, cont.cls.k))
+        if isinstance(cont, SRef) and cont.cls.pyclass and self.has_method(cont.cls, '__contains__'):
+            return self.user_contains(cont, item, st)
         if isinstance(cont, STuple):
             return z3.Or(*[self.equal(item, x, st) for x in cont.items]) if cont.items else z3.BoolVal(False)
         raise Unsupported('membership in %r' % (cont,))
